@@ -38,7 +38,7 @@ SINGLETONS = {'crysp/keccak.py': ['keccak_224', 'keccak_256', 'keccak_384', 'kec
               'crysp/blake.py': ['blake224', 'blake256', 'blake384', 'blake512', 'blake2b', 'blake2s'], 'crysp/tlsh.py': ['tlsh']}
 
 
-def memo_ok(ce, attr, W):
+def memo_ok(ctx, ce, attr, W):
     """attr is written in exactly one method, behind `if self.attr is not None: return self.attr`, from constructor-only data."""
     writers = [m for m, ef in ce.eff.items() if m != '__init__' and (attr in ef.may)]
     direct = []
@@ -50,12 +50,16 @@ def memo_ok(ce, attr, W):
     if len(direct) != 1:
         return False, 'written by %s' % direct
     r, f, owner = ce.methods[direct[0]]
-    first = [s for s in f.body if not (isinstance(s, ast.Expr) and isinstance(s.value, ast.Constant))][0]
-    ok = (isinstance(first, ast.If) and isinstance(first.test, ast.Compare) and len(first.test.ops) == 1
-          and isinstance(first.test.ops[0], ast.IsNot) and isinstance(first.test.left, ast.Attribute) and first.test.left.attr == attr
-          and isinstance(first.test.comparators[0], ast.Constant) and first.test.comparators[0].value is None
-          and len(first.body) == 1 and isinstance(first.body[0], ast.Return) and isinstance(first.body[0].value, ast.Attribute)
-          and first.body[0].value.attr == attr)
+    # decided on the normalised term of the writer (not on its syntax): the whole body is
+    #   if self.attr is None: <compute, store, return> else: return self.attr
+    try:
+        fn = ctx.fn_term(r, '%s.%s' % (owner, direct[0]))
+    except Exception as ex:
+        return False, 'writer %s not understood (%s)' % (direct[0], ex)
+    attr_t = ('attr', SELF, attr)
+    hit = ('exit', 'return', attr_t, ())
+    eff = fn[2]
+    ok = (len(eff) == 1 and eff[0][0] == 'if' and eff[0][1] == ('cmp', 'is', attr_t, ('c', None)) and tuple(eff[0][3]) == (hit,))
     if not ok:
         return False, 'no "if self.%s is not None: return self.%s" guard' % (attr, attr)
     others = (ce.eff[direct[0]].exposed - {attr}) & (W - {attr})
@@ -134,7 +138,7 @@ def run(ctx):
                 for k in sorted(ef.exposed):
                     base = k.split('.')[0]
                     if k in W or (('.' in k) and base in W and False):
-                        ok, reason = memo_ok(ce, k, W) if '.' not in k else (False, '')
+                        ok, reason = memo_ok(ctx, ce, k, W) if '.' not in k else (False, '')
                         if ok:
                             ctx.note('%s.%s memo' % (cname, k), 'memoised value of constructor-only data')
                             continue
